@@ -211,6 +211,8 @@ pub struct Report {
     pub assumptions: Vec<String>,
     pub extra: BTreeMap<String, Value>,
     pub interleavings: HashSet<u64>,
+    /// Observation floors `(counter, minimum)`; evaluated by the driver on the merged counters.
+    pub floors: Vec<(String, u64)>,
     pub started: Instant,
 }
 
@@ -231,6 +233,7 @@ impl Report {
             assumptions: Vec::new(),
             extra: BTreeMap::new(),
             interleavings: HashSet::new(),
+            floors: Vec::new(),
             started: Instant::now(),
         }
     }
@@ -288,12 +291,10 @@ impl Report {
         }
     }
 
-    /// Require a counter to have reached `min`; otherwise the run is inconclusive.
+    /// Require the counter `name`, summed over all shards of the run, to reach `min`; otherwise
+    /// the run is inconclusive (decided by the driver after merging).
     pub fn floor(&mut self, name: &str, min: u64) {
-        let have = self.counter(name);
-        if have < min {
-            self.inconclusive(format!("floor not met: {name}={have} < {min}"));
-        }
+        self.floors.push((name.to_string(), min));
     }
 
     pub fn assume(&mut self, s: &str) {
@@ -332,6 +333,7 @@ impl Report {
             "counters": self.counters,
             "probes": probes,
             "inconclusive": self.inconclusive,
+            "floors": self.floors,
             "exhaustive": self.exhaustive,
             "assumptions": self.assumptions,
             "extra": self.extra,
